@@ -55,6 +55,36 @@ CLAIMED["C02"] = ("exploration",
  "Seeded search over (input class: generated under drawn features/size/layout, corpus, big-jump stress, grow-ldc; writer schedule; 0-1 sink fault). T0: the written bytes parse under the independent parser (structural validity) and denote exactly the projection of the tree, trampolines folded on both sides; two writes are byte-identical. T1: legal short / interrupted writes give byte-identical output. T2: Err with a prefix in the sink, never Ok with an incomplete sink; a later write to a healthy sink gives the plain bytes. A clean Err at T0 is allowed by the property and only counted. Sampling, not proof.",
  "trusted: refclass parser/validator (independent, javap cross-checked), proj.rs, trampoline folding in c02.rs, SimWriter; classes duke's reader refuses cannot be written and are skipped (that is C01's subject)",
  "DESIGN.md section 4 C02")
+CLAIMED["C01"] = ("exploration",
+ "deterministic simulation: the class reader's Read+Seek source replaced by a simulated medium (chunk ceilings, short reads, EINTR, trailing bytes; EIO at call / offset, EOF, failing seek, flipped byte aimed through the reference encoder's offset map); duke's tree projected into an independent class-file model and compared with the model the bytes were generated from (or the independent parse of corpus bytes)",
+ "Seeded search over (class: generated under drawn size/features/version, 1-3 encoder layouts - pool order and duplicates, attribute order, ldc/ldc_w, xload_n/xload/wide, goto/goto_w, switch paddings, frame encodings - or a corpus class; reader schedule; 0-2 faults). T0: projection equals the model component by component, all layouts give one answer, the reader ends exactly at the end of the class. T1: schedules change nothing, no read beyond the class. T2: Err, or Ok equal to the independent parse of the delivered bytes; no panic or runaway; re-reading the pristine bytes gives the T0 answer. Sampling, not proof.",
+ "trusted: refclass (model, encoder, parser; javap cross-checked on the corpus), proj.rs, SimReader; generator admissibility rewrites listed in evidence assumptions",
+ "DESIGN.md section 4 C01")
+CLAIMED["C07"] = ("exploration",
+ "deterministic simulation: the input jar served through a simulated Read+Seek medium (SimJar: chunking, EINTR; EIO, torn jar, flipped bytes in entry data / central directory, failing seek, on the super-class provider's open and/or remap's open); output classes observed only through the independent parser and compared with an independent reference renaming of the input's model",
+ "Seeded search over (jar of 1-8 linked generated classes + corpus classes + resources, mapping set through the real remapper_b with the jar's super-class provider: partial mappings, package moves, inner classes, members inherited inside/outside the jar; reader schedule; 0-2 faults). T0: every class entry is stored under its remapped name, parses, shows no new structural problem and equals the reference renaming at every reference-carrying position; non-class entries byte-equal. T1: identical entries. T2: Err, or Ok equal to T0 (intact bytes) or to the reference over the delivered bytes; no panic/runaway; healthy retry equals T0. Sampling, not proof.",
+ "trusted: refremap (reference remapper + renamer over Sem with exhaustive destructuring), refclass, SimJar, the zip crate as assembler/re-opener; lookup rules adopted from remapper.rs where the property is silent are listed in evidence assumptions",
+ "DESIGN.md section 4 C07")
+CLAIMED["C13"] = ("exploration",
+ "deterministic simulation: client and server jars served through two simulated Read+Seek media (chunking, EINTR; EIO, torn jar, flipped bytes, failing seek on either or both sides); merged classes observed through the independent parser and judged by a reference union written from the property statement",
+ "Seeded search over (pairs of jars: disjoint / identical / re-encoded / differing classes whose interface, field and method lists are equal, prefixes, suffixes, interleavings, permutations or subsets of each other; resources, manifest, signature files, server library packages; reader schedules; 0-2 faults). T0: every entry exactly once minus signature files and bundled server libraries, identical classes byte-identical, one-sided classes and members marked with their side, shared members unmarked, member order of each side kept when the orders are compatible, member bodies from the side they came from. T1: identical observation. T2: Err, or Ok equal to the reference over the delivered bytes; healthy retry equals T0. Sampling, not proof.",
+ "trusted: refmerge, refclass, SimJar, zip crate; choices adopted from merge.rs where the statement is silent (client wins on conflicts, fixed manifest) are evidence assumptions",
+ "DESIGN.md section 4 C13")
+CLAIMED["C14"] = ("exploration",
+ "deterministic simulation: the jar served through a simulated Read+Seek medium and the nests table delivered as (possibly torn / flipped) text; nested jar observed through the independent parser; jar side, mappings side (apply / undo) and table translation judged by a reference nesting model",
+ "Seeded search over (nests table: three kinds, chains of depth 1-4, missing enclosing classes, absent classes, entries violating the rule of their kind, custom/derived inner names, C__D names; matching jar of linked generated classes; two-namespace mapping set; reader schedule; 0-2 jar faults; table text faults). T0: exactly the applicable nests renamed transitively, every reference rewritten, InnerClasses / EnclosingMethod recorded, missing enclosing classes created, entry names follow class names; apply_nests_to_mappings agrees, undo(apply(m)) = m, jar and mappings agree on class names when all entries apply, remap_nests keeps every nest in the target namespace. T1: identical. T2: Err or the reference result on the delivered bytes; table reader rule. Sampling, not proof.",
+ "trusted: refnest, refclass, refmap, SimJar; plans whose created enclosing class is itself listed are executed but not judged (the property does not decide); see evidence assumptions",
+ "DESIGN.md section 4 C14")
+CLAIMED["C15"] = ("exploration",
+ "deterministic simulation: main and library jars served through simulated Read+Seek media (chunking, EINTR; EOF, flipped jar bytes, EIO, failing seek, class-file bit flips aimed at attributes the partial visitor skips); detected bridge pairs and the produced mapping set judged by a reference bridge predicate and naming model",
+ "Seeded search over (type universe, 1-4 bridge families of 1-4 levels across main / library / nowhere, 27 bridge-site templates incl. 20 near misses, calamus and named mapping sets naming or not naming bridge / delegate / super declarations; reader schedules; 0-2 faults). T0: get_specialized_methods equals the reference predicate; add_specialized_methods_to_mappings gives the delegate the inherited target name of the bridge and leaves every other entry unchanged. T1: identical. T2: Err or the reference over the delivered archives; healthy retry equals T0. Damaged jars whose headers form a cyclic hierarchy run in a child process and are only counted (outside the quantifier). Sampling, not proof.",
+ "trusted: refbridge, refclass, refmap, SimJar; where the statement is silent (undefined classes, lookup order) the code's answer is adopted and counted (evidence assumptions)",
+ "DESIGN.md section 4 C15")
+CLAIMED["C20"] = ("exploration",
+ "deterministic simulation: raw_class_file's Read source and Write sink replaced by simulated media (chunking, EINTR, trailing bytes; EOF, flipped bit, EIO aimed at pool / attribute bodies / length and count fields; ENOSPC at aimed borders, EIO, Ok(0), flush error); byte identity, an independent JVMS skeleton of the bytes, the independent parser and hand-written golden encodings as oracles",
+ "Seeded search over (class: generated under drawn size/features/layout, corpus, re-encoded corpus, minimal; raw values: the value read, hand-built values, 0-3 edits through public fields, 19 golden values with sentinels; reader/writer schedules; 0-1 fault each side). T0: read consumes exactly the class and equals the skeleton, to_bytes(read(b)) == b, length() == bytes written, read(to_bytes(v)) == v, outputs parse to the same model. T1: identical value / bytes. T2 reader: Err, or Ok re-encoding to the delivered bytes (a tolerant Ok on bytes that are no longer well-formed is counted); T2 writer: Err with a prefix, Ok complete, second write equal. Sampling, not proof.",
+ "trusted: c20_skel (independent skeleton walker), c20_golden (hand-written bytes), refclass, SimReader/SimWriter; an in-process allocation guard answers oversized length words with an I/O error (the crate pre-allocates u32 lengths)",
+ "DESIGN.md section 4 C20")
 PENDING = {}  # id -> reason (claimed in DESIGN.md but the check is not built yet)
 
 def main():
